@@ -349,6 +349,15 @@ def vec_forms(N, L):
         fs.append(('dot(M,M)', lambda x: algopy.dot(Mx(x), Mx(x) + cmat(N, N).T)))
         fs.append(('dot(V,dot(M,V))', lambda x: algopy.dot(x * cvec(N), algopy.dot(Mx(x), x)) * cvec(2)))
         fs.append(('outer(V,V)', lambda x: algopy.outer(x, x * cvec(N) + 1.0)))
+        # constants and polynomials of rank 3 (cubic shapes, not symmetric in any pair of axes)
+        C3 = np.array([(-1) ** (i + j) * (1 + i + 2 * j + 4 * k) for i in range(N) for j in range(N) for k in range(N)], dtype=float).reshape(N, N, N)
+        C32 = C3[:, :, :2] if N >= 2 else C3
+        fs.append(('dot(V,C3)', lambda x: algopy.dot(x, C32)))
+        fs.append(('dot(M,C3)', lambda x: algopy.dot(Mx(x), C32)))
+        fs.append(('dot(C3,V)', lambda x: algopy.dot(C3, x * cvec(N))))
+        X3 = lambda x: (x * 1.0) * C3 + algopy.reshape(x * cvec(N), (N, 1, 1))
+        fs.append(('T3*X3', lambda x: X3(x).T * X3(x)))
+        fs.append(('transpose(T3)', lambda x: algopy.transpose(X3(x)) * C3))
 
         def own(name, upd, const_first):
             def f(x):
